@@ -618,6 +618,16 @@ func parseHook(rest, where string) (Hook, error) {
 			hs.Kind, hs.E = "assume", c.E
 		case strings.HasPrefix(st, "havoc "):
 			hs.Kind, hs.LHS = "havoc", strings.TrimSpace(st[6:])
+		case strings.HasPrefix(st, "apply "):
+			// apply lemma(args): an explicit instance of a lemma proved on its own (forall vars. requires ==> ensures)
+			e, err := parseSpec(strings.TrimSpace(st[6:]))
+			if err != nil {
+				return h, fmt.Errorf("%s: %v", where, err)
+			}
+			if _, ok := e.(ECall); !ok {
+				return h, fmt.Errorf("%s: apply expects lemma(args)", where)
+			}
+			hs.Kind, hs.E = "apply", e
 		default:
 			k := strings.Index(st, "=")
 			if k < 0 {
